@@ -65,6 +65,10 @@ type Design struct {
 	MustCover []string // action/definition names whose coverage count must be positive
 	Simulate  string
 	Depth     int
+	// Engine "apalache": symbolic bounded checking of invariant Inv over executions of length Depth
+	// (module with @type annotations); default is TLC.
+	Engine string
+	Inv    string
 	// ToCases turns the records the run emitted into driver cases. nil = the run emits nothing.
 	ToCases func(env *Env, emitted []Case) []Case
 	// ExpectViolation names an invariant that MUST be violated (an "as coded" variant of a module
